@@ -13,7 +13,7 @@ ASSUMPTIONS = [
     "named elements is then applied to the copy, one at a time",
     "base netlists: reader-built from the independent writers' texts (EDIF E1/E2/E3, Verilog base, EBLIF B1)",
 ]
-SOURCES = ("edif:E1", "edif:E2", "edif:E3", "verilog", "eblif:B1")
+SOURCES = ("edif:E1", "edif:E2", "edif:E3", "edif:E7", "verilog", "eblif:B1")
 
 
 def load(src):
@@ -73,6 +73,10 @@ def mutations(n):
                             w.connect_pin(other, position=idx)
                         out.append((label, mv))
                     out.append(("drop-connection", lambda w=w, pin=pin: w.disconnect_pin(pin)))
+                # a free pin (instance pin or own port pin) gains a connection to this wire
+                free = [op for x in d.children for op in x.pins if op.wire is None] + [ip for p in d.ports for ip in p.pins if ip.wire is None]
+                for other in free:
+                    out.append(("add-connection:" + ("to-floating-wire" if not w.pins else "to-net"), lambda w=w, other=other: w.connect_pin(other)))
         for x in d.children:
             for l2, d2 in defs:
                 r = x.reference
